@@ -8,6 +8,7 @@
 from __future__ import annotations
 
 import ast
+import re
 
 from .. import sqlshape
 from ..model import AnalysisError, norm
@@ -153,5 +154,42 @@ def run(ctx, rep) -> None:
         n += 1
         rep.check(s.func.qualname in allowed, "C06.R3", f"status column written by {s.func.qualname}", "closed set of status writers", s.file, s.line, disc=s.func.qualname)
     rep.floor("SQL statements writing a status column", n, 9)
+    # pause_execution: the UPDATE that writes PAUSED is conditioned on the current status, and only on statuses from which PAUSED
+    # is a legal transition; in particular never on a completed status (a finished workflow would become PAUSED, and RUNNING on resume)
+    ps_ = [s for s in sqlshape.statements(prog) if s.func.qualname == "pause_execution" and s.kind == "UPDATE" and (sqlshape.is_sqlite(s) or rep.tier == "thorough")]
+    if not ps_:
+        raise AnalysisError("pause_execution: UPDATE not found")
+    COMPLETED = T.sets["COMPLETED_STATUSES"]
+    into_paused = frozenset(m for m, tos in T.transitions.items() if "PAUSED" in tos)
+    for s_ in ps_:
+        conds = [c for c in s_.where if c.startswith("status")]
+        allowed = None
+        for c in conds:
+            m_ = re.match(r"status (?:= |in\()(.*?)\)?$", c)
+            if m_:
+                names = [x.strip() for x in m_.group(1).split(",")]
+                vals = set()
+                for nm in names:
+                    key = nm.lstrip(":").replace("%(", "").replace(")s", "")
+                    pv = s_.params.get(key)
+                    mm = re.search(r"WorkflowStatus\.(\w+)", str(pv)) if pv is not None else None
+                    if nm.startswith("'"):
+                        vals.add(nm.strip("'").upper())
+                    elif mm:
+                        vals.add(mm.group(1))
+                    else:
+                        vals = None
+                        break
+                allowed = frozenset(vals) if vals is not None else None
+        backend = "sqlite" if sqlshape.is_sqlite(s_) else "postgres"
+        if allowed is None:
+            rep.fail("C06.R3", f"pause_execution ({backend}) is conditioned on the current status", f"where: {s_.where} - PAUSED is written whatever the current status is: a SUCCEEDED / CANCELED workflow becomes PAUSED and resume() then makes it RUNNING for good",
+                     s_.file, s_.line, disc=f"pause-guard:{backend}")
+            continue
+        fin = sorted(allowed & COMPLETED)
+        rep.check(not fin, "C06.R3", f"pause_execution ({backend}) never overwrites a completed status", f"pauses from {sorted(allowed)}" + ("" if not fin else f": {fin} are final"), s_.file, s_.line, disc=f"pause-guard:{backend}")
+        extra = sorted(allowed - into_paused - COMPLETED)
+        rep.check(not extra, "C06.R3", f"pause_execution ({backend}) pauses only from statuses with a legal transition to PAUSED", f"pauses from {sorted(allowed)}; the table allows PAUSED from {sorted(into_paused)}" + ("" if not extra else
+                  f": {extra} -> PAUSED is not in VALID_TRANSITIONS"), s_.file, s_.line, disc=f"pause-sources:{backend}:{'+'.join(extra)}")
     rs = [s for s in sqlshape.statements(prog) if s.func.qualname == "resume_execution" and sqlshape.is_sqlite(s)]
     rep.check(bool(rs) and any("status = 'paused'" in c for c in rs[0].where), "C06.R3", "resume_execution only leaves PAUSED", f"where: {rs[0].where if rs else None}", rs[0].file if rs else "", rs[0].line if rs else 0, disc="resume-guard")
